@@ -28,6 +28,10 @@ inductive Obs
   | waitHang                            -- … did not return
   | crash
   | reopen (pos : Option Pos)           -- new process: plugin.Open(pos)
+  | emit (p : Pos)                      -- the plugin handed out the record at position p
+  | stopRet (pos : Option Pos)          -- Source.Stop returned pos (the v1 node's stop position)
+  | nodeEnded                           -- SourceNode.Run returned after a graceful stop
+  | nodeHang                            -- … did not return
 deriving Repr, DecidableEq, Inhabited
 
 structure Mon where
@@ -45,6 +49,8 @@ structure Mon where
   /-- 0: running, 1: Teardown called, 2: plugin torn down, 3: Teardown returned, 4: WaitPersisted returned -/
   td : Nat := 0
   ptd : Nat := 0
+  /-- position of the last record the plugin handed out in this incarnation (0 = none) -/
+  lastEmit : Nat := 0
   bad : Option String := none
 deriving Repr, DecidableEq, Inhabited
 
@@ -105,7 +111,14 @@ def monStep (strictStop : Bool) (m : Mon) : Obs → Mon
   | .reopen pos =>
     -- C03: the source is reopened exactly at the durable position
     let m := flag m (optN pos == m.committed) "C03:reopened-at-other-than-stored-position"
-    { m with acksI := [], sacksI := [], hi := optN pos, td := 0, ptd := 0 }
+    { m with acksI := [], sacksI := [], hi := optN pos, td := 0, ptd := 0, lastEmit := 0 }
+  | .emit p => { m with lastEmit := p }
+  -- C06: the stop position is the last record handed out in THIS run (empty if none): the v1 SourceNode
+  -- ends only after reading exactly that record, so a position of an earlier run would keep it running
+  | .stopRet pos => flag m (optN pos == m.lastEmit) "C06:stop-position-not-last-read"
+  | .nodeEnded => m
+  -- C06: in a healthy environment a graceful stop completes
+  | .nodeHang => flag m (!strictStop) "C06:graceful-stop-did-not-complete"
 
 def monRun (strictStop : Bool) (tr : List Obs) : Mon := tr.foldl (monStep strictStop) {}
 
